@@ -20,11 +20,13 @@ from . import scen
 PROPS = {
     "C01": {"scenarios": ["roundtrip.uvl"]},
     "C02": {"scenarios": ["roundtrip.json", "roundtrip.fide", "roundtrip.glencoe",
-                          "roundtrip.afm", "roundtrip.uvl"]},
+                          "roundtrip.afm", "roundtrip.uvl", "third-party", "uvl-peer"]},
+    "C04": {"scenarios": ["uvl-peer"]},
     "C05": {"scenarios": ["roundtrip.json"]},
     "C06": {"scenarios": ["roundtrip.afm"]},
     "C07": {"scenarios": ["roundtrip.fide"]},
     "C08": {"scenarios": ["roundtrip.glencoe"]},
+    "C09": {"scenarios": ["third-party"]},
     "C12": {"scenarios": ["serialise"]},
     "C17": {"scenarios": ["metrics-session"]},
     "C19": {"scenarios": ["ops-session", "metrics-session"]},
